@@ -701,12 +701,15 @@ def dgetD2 (d : Dict (Dict Val)) (tag f : String) : Option Val :=
   | some m => dget m f
   | none => none
 
+/-- the current cell of field `f` of the loggee at `tag` (`none`: no such field, or no such loggee) -/
+def curCell (w : World) (loggees : Dict Nat) (tag f : String) : Option Val :=
+  match dget loggees tag with
+  | some sid => dget (w.shares sid).data f
+  | none => none
+
 /-- some logged field differs from its value in the last record -/
 def differs (w : World) (loggees : Dict Nat) (last : Dict (Dict Val)) (fields : Dict (List String)) : Bool :=
-  fields.any fun (tag, fs) =>
-    match dget loggees tag with
-    | some sid => fs.any fun f => cellNe (dget (w.shares sid).data f) (dgetD2 last tag f)
-    | none => false
+  fields.any fun (tag, fs) => fs.any fun f => cellNe (curCell w loggees tag f) (dgetD2 last tag f)
 
 /-- the ideal decision: write a record now? -/
 def Ideal.wants (i : Ideal) : Bool :=
@@ -768,5 +771,39 @@ def Ideal.exec (i : Ideal) : List Op → Ideal
 
 /-- late write (region of D12) for a single log -/
 def lateWrite1 (s : S1) : List Op → Bool := lateWrite s.toSys
+
+/-! ## vocabulary of the streak / deck theorems -/
+
+/-- the cells a deck log with field list `fs` writes for a queue of entries (non-mappings are dropped) -/
+def entryCells (fs : List String) : List Entry → List (List (Option Val))
+  | [] => []
+  | .map m :: rest => (fs.map fun f => (dget m f).map .atom) :: entryCells fs rest
+  | .other _ :: rest => entryCells fs rest
+
+/-- the entries pushed onto the deck of share `sid` by a history, in order -/
+def pushed (sid : Nat) : List Op → List Entry
+  | [] => []
+  | .w (.push s e) :: rest => if s = sid then e :: pushed sid rest else pushed sid rest
+  | _ :: rest => pushed sid rest
+
+/-- the elements appended to the list in field `q` of share `sid` by a history, in order -/
+def appended (sid : Nat) (q : String) : List Op → List Atom
+  | [] => []
+  | .w (.append s f a) :: rest =>
+    if s = sid ∧ f = q then a :: appended sid q rest else appended sid q rest
+  | _ :: rest => appended sid q rest
+
+/-- no operation of the history replaces field `q` of share `sid` (`write` / `poke`) -/
+def noOverwrite (sid : Nat) (q : String) : List Op → Bool
+  | [] => true
+  | .w (.write s f _) :: rest => !(s == sid && f == q) && noOverwrite sid q rest
+  | .w (.poke s f _) :: rest => !(s == sid && f == q) && noOverwrite sid q rest
+  | _ :: rest => noOverwrite sid q rest
+
+/-- the elements waiting in the queue field -/
+def pending (w : World) (sid : Nat) (q : String) : List Atom :=
+  match dget (w.shares sid).data q with
+  | some (.list l) => l
+  | _ => []
 
 end Ioflo.LogRules
